@@ -84,10 +84,10 @@ func FuzzReadBounded(f *testing.F) {
 		}
 		L := 7 + int(lim)%120
 		// express the stream as one literal block so that the C20 oracle can be reused
-		c := C20Case{L: L, Via: "read", Plan: plan, Blocks: []BlockSpec{{Kind: "raw", payload: string(stream)}}}
+		c := C20Case{L: L, Via: "read", Plan: plan, Raw: stats.B(stream)}
 		v := checkC20Raw(t, c, stream)
 		if v.Fail != "" {
-			stats.WriteFailure("C20", map[string]any{"l": L, "stream": stats.B(stream), "plan": plan}, "", v.Fail)
+			stats.WriteFailure("C20", c, "", v.Fail)
 			t.Fatal(v.Fail)
 		}
 	})
